@@ -135,24 +135,30 @@ fn digest_book(f: &mut Fnv, orders: Vec<&bourse_book::types::Order>, trades: &Ve
     }
 }
 
-fn digest_records<const N: usize>(f: &mut Fnv, rec: &bourse_de::Level2DataRecords<N>, tv: &Vec<u32>) {
-    for v in [&rec.prices.0, &rec.prices.1, &rec.volumes.0, &rec.volumes.1] {
+fn digest_records<const N: usize>(f: &mut Fnv, rec: &bourse_de::Level2DataRecords<N>, tv: impl crate::envs::ToU32s) {
+    use crate::envs::ToU32s;
+    // (conversions tolerate another integer width of the public record fields)
+    for v in [rec.prices.0.to_u32s(), rec.prices.1.to_u32s(), rec.volumes.0.to_u32s(), rec.volumes.1.to_u32s()] {
         f.u64(v.len() as u64);
         for x in v {
-            f.u64(*x as u64);
+            f.u64(x as u64);
         }
     }
-    for arr in [&rec.volumes_at_levels.0, &rec.volumes_at_levels.1, &rec.orders_at_levels.0, &rec.orders_at_levels.1] {
-        for v in arr.iter() {
-            f.u64(v.len() as u64);
-            for x in v {
-                f.u64(*x as u64);
-            }
+    let mut per_level: Vec<Vec<u32>> = vec![];
+    per_level.extend(rec.volumes_at_levels.0.iter().map(|v| v.to_u32s()));
+    per_level.extend(rec.volumes_at_levels.1.iter().map(|v| v.to_u32s()));
+    per_level.extend(rec.orders_at_levels.0.iter().map(|v| v.to_u32s()));
+    per_level.extend(rec.orders_at_levels.1.iter().map(|v| v.to_u32s()));
+    for v in per_level {
+        f.u64(v.len() as u64);
+        for x in v {
+            f.u64(x as u64);
         }
     }
+    let tv = tv.to_u32s();
     f.u64(tv.len() as u64);
     for x in tv {
-        f.u64(*x as u64);
+        f.u64(x as u64);
     }
 }
 
